@@ -78,7 +78,7 @@ const char *vd_gram_kind_name(int kind);
 typedef struct vd_pattern {
     int full_utt;            /* one call with full_utt=TRUE */
     int use_float;           /* float32 entry point */
-    int style;               /* 0 fixed 2048, 1 one streaming call, 2 random chunks, 3 tiny chunks, 4 first chunk < 1 frame, 5 huge chunks */
+    int style;               /* 0 fixed 2048, 1 one streaming call, 2 random chunks, 3 tiny chunks, 4 first chunk < 1 frame, 5 huge chunks, 6 short chunk then the rest in one call */
     int no_search_chunks;    /* number of leading chunks passed with no_search=TRUE (-1 = all) */
     double partial_prob;     /* probability of a partial-result callback after a chunk */
 } vd_pattern;
